@@ -352,22 +352,46 @@ func c06after(c *an.Ctx) {
 			okLock := must.Holds("NSQD.RWMutex", "", true)
 			// skipped only when loading || !persist
 			skippedOK := true
+			asked := map[ssa.Value]bool{}
+			if len(notify.Params) >= 3 {
+				asked[notify.Params[2]] = true // persist requested
+			}
+			loadingF := c.P.Field("nsqd", "NSQD", "isLoading")
+			an.Instrs(notify, func(in ssa.Instruction) {
+				// `atomic.LoadInt32(&n.isLoading) == 1` is false, `!= 1` / `== 0` true
+				b, ok := in.(*ssa.BinOp)
+				if !ok || (b.Op != token.EQL && b.Op != token.NEQ) {
+					return
+				}
+				if !atomicLoadOf(b.X, loadingF) {
+					return
+				}
+				if k, isC := an.ConstInt(b.Y); isC {
+					asked[b] = (k == 1) != (b.Op == token.EQL)
+				}
+			})
 			q := &an.PathQ{Fn: clos, StartEntry: true, Sink: an.IsReturn,
 				Cut: func(in ssa.Instruction, _ *an.PathState) bool { return in == pc.(ssa.Instruction) },
-				CutEdge: func(e an.Edge, _ *an.PathState) bool {
-					// exit edges: exitChan chosen, or (loading || !persist) true
-					for _, f := range an.FactsOnEdge(e) {
-						if fv, ok := f.V.(*ssa.FreeVar); ok {
-							if (fv.Name() == "persist" && !f.True) || (fv.Name() == "loading" && f.True) {
-								return true
-							}
+				CutEdge: func(e an.Edge, ps *an.PathState) bool {
+					// a skip is legitimate only because the caller did not ask (persist == false) or the daemon is loading: under
+					// the assumption "persist requested and not loading" the branch must be known to go the other way. The tested
+					// value is a variable captured from Notify; it is resolved to what Notify stored into it.
+					for _, f := range ps.FactsOnEdge(e) {
+						var fv *ssa.FreeVar
+						if x, ok := f.V.(*ssa.FreeVar); ok {
+							fv = x
+						} else if u, ok := f.V.(*ssa.UnOp); ok && u.Op == token.MUL {
+							fv, _ = u.X.(*ssa.FreeVar)
 						}
-						if u, ok := f.V.(*ssa.UnOp); ok {
-							if fv, ok := u.X.(*ssa.FreeVar); ok && u.Op == token.MUL {
-								if (fv.Name() == "persist" && !f.True) || (fv.Name() == "loading" && f.True) {
-									return true
-								}
-							}
+						if fv == nil {
+							continue
+						}
+						b := capturedValue(clos, fv)
+						if b == nil {
+							continue
+						}
+						if val, known := an.EvalBoolUnder(b, asked); known && val != f.True {
+							return true
 						}
 					}
 					return false
@@ -651,32 +675,32 @@ func c06ephemeral(c *an.Ctx) {
 		if f == nameC {
 			eph, what = cEph, "channel"
 		}
+		// no path from the start of the iteration reaches this record without having learned, on some edge, that the entry is
+		// not ephemeral (or, for topics, that the caller asked for ephemeral ones too). Path-sensitive, so the test may be
+		// spelled as a computed boolean (`skip := t.ephemeral && !ephemeral; if skip { continue }`).
 		good := false
-		for _, fact := range an.FactsAt(st.Block()) {
-			if fv, _ := an.LoadedField(fact.V); fv == eph && !fact.True {
-				good = true
-			}
-			// topic: !(topic.ephemeral && !ephemeralParam) – accept the && decomposition: either ephemeral false or param true
-			if p, ok := fact.V.(*ssa.Parameter); ok && what == "topic" && p == get.Params[1] && fact.True {
-				good = true
-			}
-		}
-		if !good && what == "topic" {
-			// reached via the false edge of `topic.ephemeral && !ephemeral` => two predecessors; check both incoming edges
-			good = true
-			for _, p := range st.Block().Preds {
-				okEdge := false
-				for _, fact := range an.FactsOnEdge(an.Edge{From: p, To: st.Block()}) {
-					if fv, _ := an.LoadedField(fact.V); fv == eph && !fact.True {
-						okEdge = true
-					}
-					if pp, ok := fact.V.(*ssa.Parameter); ok && pp == get.Params[1] && fact.True {
-						okEdge = true
-					}
+		loops := an.NaturalLoops(get)
+		if l := an.LoopContaining(loops, st.Block()); l != nil {
+			if il, ok := an.AsIndexLoop(l); ok {
+				isParamTrue := func(f an.Fact) bool {
+					p, ok := f.V.(*ssa.Parameter)
+					return ok && what == "topic" && len(get.Params) > 1 && p == get.Params[1] && f.True
 				}
-				if !okEdge {
-					good = false
-				}
+				q := &an.PathQ{Fn: get, StartEdges: []an.Edge{{From: il.Header, To: il.Body}},
+					Sink: func(in ssa.Instruction, _ *an.PathState) bool { return in == ssa.Instruction(st) },
+					CutEdge: func(e an.Edge, ps *an.PathState) bool {
+						for _, fact := range ps.FactsOnEdge(e) {
+							if fv, _ := an.LoadedField(fact.V); fv == eph && !fact.True {
+								return true
+							}
+							if isParamTrue(fact) {
+								return true
+							}
+						}
+						return false
+					}}
+				_, reach := q.Find()
+				good = !reach
 			}
 		}
 		c.Check(good, get, "ephemeral "+what+" excluded from the document", st.Pos(), "", "an ephemeral "+what+" can be written to the persisted metadata")
@@ -704,4 +728,51 @@ func c06ephemeral(c *an.Ctx) {
 	if n < 4 {
 		c.Bad(notify, "Notify sites", notify.Pos(), sprintf("expected Notify in the two constructors and two exit(deleted) paths, found %d", n), nil)
 	}
+}
+
+// capturedValue: the value the enclosing function stored into the variable that closure clos captures as fv (the variable
+// is captured by reference; nil unless it is written exactly once, before the closure is made).
+func capturedValue(clos *ssa.Function, fv *ssa.FreeVar) ssa.Value {
+	parent := clos.Parent()
+	if parent == nil {
+		return nil
+	}
+	idx := -1
+	for i, f := range clos.FreeVars {
+		if f == fv {
+			idx = i
+		}
+	}
+	if idx < 0 {
+		return nil
+	}
+	var out ssa.Value
+	an.Instrs(parent, func(in ssa.Instruction) {
+		mc, ok := in.(*ssa.MakeClosure)
+		if !ok || mc.Fn != ssa.Value(clos) || idx >= len(mc.Bindings) {
+			return
+		}
+		al, ok := mc.Bindings[idx].(*ssa.Alloc)
+		if !ok {
+			return
+		}
+		var val ssa.Value
+		n := 0
+		for _, r := range an.Referrers(al) {
+			if st, ok := r.(*ssa.Store); ok && st.Addr == ssa.Value(al) {
+				val = st.Val
+				n++
+			}
+		}
+		// stores inside the closure itself
+		for _, r := range an.Referrers(fv) {
+			if st, ok := r.(*ssa.Store); ok && st.Addr == ssa.Value(fv) {
+				n++
+			}
+		}
+		if n == 1 {
+			out = val
+		}
+	})
+	return out
 }
